@@ -2209,6 +2209,8 @@ def b_range(ctx, *a):
 
 
 def b_abs(ctx, x):
+    if isinstance(x, PyObj) and hasattr(x, 'map_'):
+        return x.map_(ctx, lambda v: abs(v))
     return abs(x)
 
 
